@@ -13,11 +13,13 @@ import (
 )
 
 type opLine struct {
-	Op       string          `json:"op"`
-	ID       int             `json:"id"`
-	Dataset  json.RawMessage `json:"dataset"`
-	Text     string          `json:"text"`
-	Optimize bool            `json:"optimize"`
+	Op       string              `json:"op"`
+	ID       int                 `json:"id"`
+	Dataset  json.RawMessage     `json:"dataset"`
+	Text     string              `json:"text"`
+	Optimize bool                `json:"optimize"`
+	Env      map[string][]string `json:"env"`
+	Timeout  float64             `json:"timeout"`
 }
 
 func main() {
